@@ -58,6 +58,8 @@ type vDigesterBuilder struct {
 	// fault injection: fail the k-th call (1-based); 0 = never
 	failAt int
 	calls  int
+	// digests of byte-level keys by their stored value (keys are re-hashed from storage)
+	known map[uint64][4]uint64
 }
 
 var _ DigesterBuilder = &vDigesterBuilder{}
@@ -71,11 +73,19 @@ func (b *vDigesterBuilder) Digest(hip HashInputProvider, v Value) (Digester, err
 	if _, err := hip(v, nil); err != nil {
 		return nil, err
 	}
-	k, ok := v.(vKey)
-	if !ok {
-		return nil, fmt.Errorf("unexpected key type %T", v)
+	switch k := v.(type) {
+	case vKey:
+		return &vDigester{d: k.d, levels: b.levels}, nil
+	case vBKey:
+		return &vDigester{d: k.d, levels: b.levels}, nil
+	case vU64:
+		d, ok := b.known[uint64(k)]
+		if !ok {
+			return nil, fmt.Errorf("unknown byte-level key %d", uint64(k))
+		}
+		return &vDigester{d: d, levels: b.levels}, nil
 	}
-	return &vDigester{d: k.d, levels: b.levels}, nil
+	return nil, fmt.Errorf("unexpected key type %T", v)
 }
 
 func vhKeyID(s Storable, storage SlabStorage) (uint64, bool) {
